@@ -273,9 +273,9 @@ func (set *SortedSet) Pop(count int, policy string) (*SortedSet, error) {
 
 	slices.SortFunc(members, func(a, b MemberParam) int {
 		if strings.EqualFold(policy, "min") {
-			return cmp.Compare(a.Score, b.Score)
+			return compareMembers(a, b)
 		}
-		return cmp.Compare(b.Score, a.Score)
+		return compareMembers(b, a)
 	})
 
 	for i := 0; i < count; i++ {
@@ -482,4 +482,13 @@ func Intersect(aggregate string, setParams ...SortedSetParam) *SortedSet {
 
 		return NewSortedSet(params)
 	}
+}
+
+// compareMembers orders members by score and, for equal scores, by member, so that
+// ranks, ranges and pops do not depend on map iteration order.
+func compareMembers(a, b MemberParam) int {
+	if c := cmp.Compare(a.Score, b.Score); c != 0 {
+		return c
+	}
+	return cmp.Compare(a.Value, b.Value)
 }
